@@ -4191,6 +4191,24 @@ where
     }
   }
 
+  fn visit_group_entry(&mut self, entry: &GroupEntry<'a>) -> visitor::Result<Error<T>> {
+    let result = walk_group_entry(self, entry);
+
+    // The occurrence indicator of an inline group or of a group name applies
+    // to that entry only: left set, it made the next member of the map
+    // optional as well ('{? g, b: int}' accepted a map without "b")
+    let own_occurrence = match entry {
+      GroupEntry::InlineGroup { occur, .. } => occur.is_some(),
+      GroupEntry::TypeGroupname { ge, .. } => ge.occur.is_some(),
+      GroupEntry::ValueMemberKey { .. } => false,
+    };
+    if own_occurrence {
+      self.state.occurrence = None;
+    }
+
+    result
+  }
+
   fn visit_value_member_key_entry(
     &mut self,
     entry: &ValueMemberKeyEntry<'a>,
